@@ -69,7 +69,7 @@ Definition badjump_code : list Z := [96; 4; 53; 96; 119; 87; 0].
 Definition badjump_se : senv :=
   mkSEnv 1 badjump_code (TVar VCaller) (TVar VOrigin) (TVar VValue)
          (map (fun j => (Nat.modulo j 32, TVar (VArg (Nat.div j 32)))) (seq 0 64)) false 1
-         (mkBlock 0 31337 0 0 0 1 1) [].
+         (mkBlock 0 31337 0 0 0 1 1 []) [].
 Definition always_unknown (p : list cond) (c : term) (b : bool) : Z := R_UNKNOWN.
 
 Example C01_badjump_repaired :
@@ -87,7 +87,7 @@ Definition demo_code : list Z := [96; 4; 53; 96; 9; 87; 96; 7; 0; 91; 96; 1; 95;
 Definition demo_se : senv :=
   mkSEnv 1 demo_code (TVar VCaller) (TVar VOrigin) (TVar VValue)
          (map (fun j => (Nat.modulo j 32, TVar (VArg (Nat.div j 32)))) (seq 0 64)) false 1
-         (mkBlock 0 31337 0 0 0 1 1) [].
+         (mkBlock 0 31337 0 0 0 1 1 []) [].
 Example C01_nonvacuous :
   length (fst (sexec 1048576 demo_se always_unknown 2 20 init_sstate)) = 2%nat /\
   snd (sexec 1048576 demo_se always_unknown 2 20 init_sstate) = false /\
@@ -193,3 +193,61 @@ Theorem C01_dispatch_correct : forall opc, 0 <= opc < 256 ->
   end.
 Proof. exact dispatch_correct. Qed.
 Print Assumptions C01_dispatch_correct.
+
+(* ------------------------------------------------------------------------------------------
+   CREATE2.  The reference interpreter has the EVM's CREATE2 (Spec/Evm.v: do_create2, create2_address,
+   the renaming c2name of the new account being the identity unless the tie supplies names); the
+   mini-SEVM model leaves CREATE2 outside its subset (a stuck leaf: C01_sound_calls makes no claim).
+   What IS under a theorem: the address layout regenerated from SEVM.create (Gen/GenCreate2.v, by
+   translate/t_create2.py: which byte strings are hashed, in which order, how many bits are kept,
+   the order in which the operands are popped, that the executed init code is the memory slice
+   itself, that the CREATE counter is not consumed) is the EIP-1014 address of the reference, for
+   every sender, salt and init code.  Everything else about CREATE2 is covered by the L2 tie. *)
+From HV Require Import Model.Create2Defs Gen.GenCreate2 Model.Create2Model Proofs.Create2Proofs.
+
+(* Model/Create2Model.v: c2_model_preimage = the concatenation of the byte strings of the regenerated field
+   list c2_fields (0xff | sender, 20 bytes | salt, 32 bytes | keccak256(init code), 32 bytes);
+   c2_model_address = keccak256 of it modulo 2 ^ c2_address_bits.
+   Spec/Evm.v: create2_preimage sender salt init = 255 :: be_bytes 20 sender ++ be_bytes 32 salt ++
+   be_bytes 32 (keccak_bytes init); create2_address = keccak_bytes of it mod 2 ^ 160. *)
+Theorem C01_create2_address_tied :
+  forall sender salt init,
+    c2_model_preimage sender salt init = create2_preimage sender salt init /\
+    c2_model_address sender salt init = create2_address sender salt init.
+Proof.
+  intros sender salt init.
+  split; [exact (c2_model_preimage_eq sender salt init) | exact (c2_model_address_eq sender salt init)].
+Qed.
+Print Assumptions C01_create2_address_tied.
+
+Theorem C01_create2_conventions_tied :
+  c2_pops = [P_VALUE; P_OFFSET; P_SIZE; P_SALT] /\ c2_consumes_create_counter = false /\
+  c2_executes_memory_slice = true /\ c2_named_by_registration_number = true.
+Proof. repeat split; reflexivity. Qed.
+Print Assumptions C01_create2_conventions_tied.
+
+(* the renaming is the identity when no name is supplied: the reference is then the EVM itself *)
+Theorem C01_create2_unnamed_is_evm : forall b a, b_c2names b = [] -> c2name b a = a.
+Proof. exact c2name_nil. Qed.
+Print Assumptions C01_create2_unnamed_is_evm.
+
+(* the reference's address function on test vectors of EIP-1014, and the reference interpreter on
+   PUSH0 PUSH0 PUSH0 PUSH0 CREATE2 (account at the EIP-1014 address, CREATE counter untouched; repeated:
+   collision, 0 pushed) *)
+Example C01_create2_nonvacuous :
+  create2_address 0 0 [0] = 440176130766443707569614712219969213191074266936 /\
+  create2_address 3735928559 3405691582 [222; 173; 190; 239] = 553503646706470834874935460337046322302823598791 /\
+  match exec 1048576 20 (c2_demo_env [] [95; 95; 95; 95; 245; 0]) (init_state c2_empty_world 0) with
+  | ROk w ctr _ _ => has_account w C2_ADDR_EMPTY && (ctr =? 0)
+  | _ => false
+  end = true /\
+  match exec 1048576 40 (c2_demo_env [] [95; 95; 95; 95; 245; 95; 95; 95; 95; 245; 95; 82; 96; 32; 95; 243])
+             (init_state c2_empty_world 0) with
+  | ROk w _ ret _ => has_account w C2_ADDR_EMPTY && forallb (Z.eqb 0) ret && (length ret =? 32)%nat
+  | _ => false
+  end = true.
+Proof.
+  split; [exact (proj1 eip1014_vectors)|].
+  split; [exact (proj1 (proj2 (proj2 (proj2 (proj2 eip1014_vectors)))))|].
+  split; [exact create2_run_is_the_evm | exact create2_run_collision].
+Qed.
